@@ -121,6 +121,9 @@ class Machine:
             return v  # reference to plain data is the data
         if p[0] == "field":
             base = self.read(st, frame, p[1])
+            if isinstance(base, tuple) and base[0] == "ptr":
+                # by-value closure environments are handed over as pointers by call_closure
+                base = self.deref_all(st, base)
             return get_path(base, (p[2],))
         if p[0] == "downcast":
             return self.read(st, frame, p[1])
@@ -179,6 +182,14 @@ class Machine:
             if m.group(1) == "AddWithOverflow":
                 return ("tuple", (a + b, z3.Not(z3.BVAddNoOverflow(a, b, False))))
             return ("tuple", (a - b, z3.Not(z3.BVSubNoUnderflow(a, b, False))))
+        m = re.match(r"^((?:copy|move) .*?) as .* \((?:PointerCoercion|Transmute|PtrToPtr)[^)]*(?:\([^)]*\))?[^)]*\)$", r)
+        if m:
+            # unsizing / pointer casts do not change the value in this model
+            return self.operand(st, frame, parse_operand(m.group(1)))
+        m = re.match(r"^\[(.*)\]$", r)
+        if m:
+            items = [self.operand(st, frame, parse_operand(x)) for x in split_top(m.group(1))] if m.group(1).strip() else []
+            return ("slice", tuple(items))
         m = re.match(r"^Not\((.*)\)$", r)
         if m:
             v = self.operand(st, frame, parse_operand(m.group(1)))
